@@ -71,6 +71,22 @@ Definition is_transfer (sg : istate) (ks i_s kd i_d : nat) (v : Q) : istate :=
   let sg1 := is_upd sg ks i_s (iw_remove (sg ks i_s) v) in
   is_upd sg1 kd i_d (iw_add (sg1 kd i_d) v g).
 
+(** a planned sequence of pipetting steps between labware [ks] and [kd]; well ids are resolved with
+    the (never changing) geometry of the two labware; tip handling ([Commit]) moves no liquid *)
+Fixpoint is_exec (sg : istate) (ks kd : nat) (Ls Ld : labware) (acts : list action) : istate :=
+  match acts with
+  | [] => sg
+  | Commit :: r => is_exec sg ks kd Ls Ld r
+  | Step sw dw v :: r =>
+      match lw_index Ls sw, lw_index Ld dw with
+      | Some i, Some j => is_exec (is_transfer sg ks i kd j v) ks kd Ls Ld r
+      | _, _ => sg
+      end
+  end.
+
+Definition step_positive (a : action) : Prop :=
+  match a with Step _ _ v => 0 < v | Commit => True end.
+
 (* ------------------------------------------------------------------ abstraction of the model *)
 
 Definition abs_well (L : labware) (i : nat) : iwell :=
@@ -100,6 +116,10 @@ Definition comp_inv (L : labware) : Prop :=
 (** the composition of well [i] is completely known *)
 Definition fully_known (L : labware) (i : nat) : Prop := well_sum L i == 1.
 
+(** the fractions sum to 1 in every non-empty well *)
+Definition known_inv (L : labware) : Prop :=
+  forall i, (i < n_wells (lw_geom L))%nat -> ~ vol_at L i == 0 -> fully_known L i.
+
 (** the part of [wf_labware] that the mixing arithmetic relies on: volumes are never negative *)
 Definition vol_base (L : labware) : Prop :=
   wf_geom (lw_geom L) /\
@@ -117,6 +137,15 @@ Definition comp_full (c : composition) : Prop := Qsum (map snd c) == 1.
 Definition ocomp_ok (oc : option composition) : Prop :=
   match oc with Some c => comp_ok c | None => True end.
 
+(** an addition that keeps non-empty wells fully known: a positive volume comes with a complete
+    composition (an addition without composition must be of volume zero) *)
+Definition oadd_known (x : xnum) (oc : option composition) : Prop :=
+  match x, oc with
+  | XQ v, Some c => 0 < v -> comp_full c
+  | XQ v, None => v == 0
+  | _, _ => True
+  end.
+
 (** default component names *)
 Definition init_name (name : string) (multi : bool) (names : list (string * option string))
     (w : string) : string :=
@@ -124,3 +153,43 @@ Definition init_name (name : string) (multi : bool) (names : list (string * opti
   | Some (Some s) => s
   | _ => if multi then (name ++ "." ++ w)%string else name
   end.
+
+(* ------------------------------------------------------------------ further statement-level definitions *)
+
+(** one element of [add_loop] / [remove_loop] (the loop bodies of the model, named) *)
+Definition add_step (L : labware) (i : nat) (v : Q) (oc : option composition) : labware :=
+  let v0 := vol_at L i in
+  let L1 := set_vols L (upd (lw_vols L) i (Qred (v0 + v))) in
+  match oc with
+  | Some c => write_composition L1 i (combine_composition v0 (well_composition_at L1 i) v c)
+  | None => L1
+  end.
+
+Definition rem_step (L : labware) (i : nat) (v : Q) : labware :=
+  set_vols L (upd (lw_vols L) i (Qred (vol_at L i - v))).
+
+(** invariants of a whole program state *)
+Definition st_inv (s : state) : Prop := Forall mix_inv (st_lw s).
+Definition st_known (s : state) : Prop := Forall known_inv (st_lw s).
+
+(** compositions a caller may pass to [add] / [dispense] *)
+Definition comps_ok (comps : option (list (option composition))) : Prop :=
+  match comps with Some cs => Forall ocomp_ok cs | None => True end.
+
+(** compositions of an [add] that keep wells fully known: every positive volume has a complete one *)
+Definition comps_known (comps : option (list (option composition))) : Prop :=
+  match comps with
+  | Some cs => Forall (fun oc => match oc with Some c => comp_full c | None => False end) cs
+  | None => False
+  end.
+
+(** component amounts brought in by the items of an [add] *)
+Fixpoint items_amt (k : string) (items : list (string * xnum * option composition)) : Q :=
+  match items with
+  | [] => 0
+  | (_, x, oc) :: r => (match x, oc with XQ v, Some c => v * cget k c | _, _ => 0 end) + items_amt k r
+  end.
+
+(** default component name of trough column [c] *)
+Definition trough_default (name : string) (multi : bool) (c : nat) : string :=
+  if multi then (name ++ ".column_" ++ pad2 (c + 1))%string else name.
